@@ -117,7 +117,9 @@ def pattern_matches(test, pats):
             if ok:
                 return True
         else:
-            if R.bits_of(p, w) == b:
+            # an integer pattern that is not representable in the shape of the tested value never matches (it is not compared by bit pattern)
+            lo, hi = (-(1 << (w - 1)), (1 << (w - 1)) - 1) if sg and w else (0, (1 << w) - 1)
+            if lo <= p <= hi and R.bits_of(p, w) == b:
                 return True
     return False
 
